@@ -88,6 +88,11 @@ TInject == /\ e.ev = "inject"
            /\ env' = [now |-> e.now, down |-> {e.down[n] : n \in DOMAIN e.down}, cls |-> e.cls, fam |-> e.fam]
            /\ l' = l + 1 /\ UNCHANGED <<T, segs, cnt>>
 
+\* the link state changes while the packet travels
+TLinks == /\ e.ev = "links"
+          /\ env' = [env EXCEPT !.down = {e.down[n] : n \in DOMAIN e.down}]
+          /\ l' = l + 1 /\ UNCHANGED <<T, segs, pkt, loc, cnt>>
+
 \* the packet with the logged verification facts attached to the current hop field and the one after it
 WithFacts(p, facts) ==
   LET tot == NHops(p.segs)
@@ -140,7 +145,7 @@ TStep ==
   /\ loc' = IF e.k = "fwd" THEN [as |-> e.nas, ifin |-> e.nif] ELSE [as |-> 0, ifin |-> 0]
   /\ l' = l + 1 /\ UNCHANGED <<T, segs, env>>
 
-TNext == l <= Len(Rec) /\ (TMeta \/ TTopo \/ TSeg \/ TOffered \/ TInject \/ TStep)
+TNext == l <= Len(Rec) /\ (TMeta \/ TTopo \/ TSeg \/ TOffered \/ TInject \/ TLinks \/ TStep)
 TSpec == TInit /\ [][TNext]_vars
 
 TraceAccepted ==
